@@ -8,6 +8,7 @@ import (
 
 	"verifharness/drv/c03"
 	"verifharness/drv/c05"
+	"verifharness/drv/c11"
 	"verifharness/drv/c14"
 	"verifharness/drv/c18"
 	"verifharness/drv/c20"
@@ -18,6 +19,7 @@ import (
 var cmds = map[string]func([]string) error{
 	"c03": c03.Main,
 	"c05": c05.Main,
+	"c11": c11.Main,
 	"c14": c14.Main,
 	"c18": c18.Main,
 	"c20": c20.Main,
